@@ -62,6 +62,7 @@ type wReq struct {
 	CancelledBy *Recvd
 	FlushedBy   []*wReq
 	Msg         *Msg
+	key         string // conn/type/fid/offset, computed once (never format inside scheduler-evaluated conditions)
 }
 
 func (q *wReq) String() string {
@@ -160,7 +161,8 @@ func NewSrvWork(x *Ctx, flushop bool) *SrvWork {
 		w.reqs = append(w.reqs, q)
 		w.byConn[q.Conn] = append(w.byConn[q.Conn], q)
 		if !q.IsFlush {
-			w.byKey[fmt.Sprintf("%d/%d/%d/%d", q.Conn, q.Type, q.Fid, w.nonce(q))] = q
+			q.key = fmt.Sprintf("%d/%d/%d/%d", q.Conn, q.Type, q.Fid, w.nonce(q))
+			w.byKey[q.key] = q
 		}
 	}
 	fs.PlanFor = w.planFor
@@ -264,6 +266,7 @@ func (w *SrvWork) Start() {
 		peer.OnReply = func(r *Recvd) { w.onReply(ci, r) }
 		g := rt.Go(rt.SiteSpawn, func() {
 			rt.SetName(fmt.Sprintf("client%d", ci))
+			rt.HarnessOnly()
 			ver := "9P2000"
 			if w.dotu {
 				ver = "9P2000.u"
@@ -369,7 +372,7 @@ func allReplied(ss []*Sent) bool {
 }
 
 func (w *SrvWork) invOf(q *wReq) *Inv {
-	key := fmt.Sprintf("%d/%d/%d/%d", q.Conn, q.Type, q.Fid, w.nonce(q))
+	key := q.key
 	for _, i := range w.fs.Log {
 		if i.Key == key && i.Req != nil && i.Tag == q.Tag {
 			return i
@@ -380,7 +383,7 @@ func (w *SrvWork) invOf(q *wReq) *Inv {
 
 func (w *SrvWork) invsOf(q *wReq) []*Inv {
 	var is []*Inv
-	for _, i := range w.fs.ByKey(fmt.Sprintf("%d/%d/%d/%d", q.Conn, q.Type, q.Fid, w.nonce(q))) {
+	for _, i := range w.fs.ByKey(q.key) {
 		if i.Tag == q.Tag {
 			is = append(is, i)
 		}
@@ -440,7 +443,7 @@ func (w *SrvWork) onReply(ci int, r *Recvd) {
 				s := r.For
 				s.Reply = nil
 				r.For = nil
-				peer.out[r.M.Tag] = append([]*Sent{s}, peer.out[r.M.Tag]...)
+				peer.putBackOut(s)
 				return
 			}
 		}
@@ -452,14 +455,7 @@ func (w *SrvWork) onReply(ci int, r *Recvd) {
 				t := q.Target
 				t.Cancelled = true
 				t.CancelledBy = r
-				peer := w.sys.Conns[ci].Peer
-				lst := peer.out[t.Tag]
-				for i, s := range lst {
-					if s == t.Sent {
-						peer.out[t.Tag] = append(append([]*Sent{}, lst[:i]...), lst[i+1:]...)
-						break
-					}
-				}
+				w.sys.Conns[ci].Peer.dropOut(t.Sent)
 				w.x.Probe("request-cancelled-by-flush")
 			}
 		}
